@@ -29,14 +29,26 @@ def split_step(A, s, dop, gamma):
     return N * mk_fn("ifft", [L * mk_fn("fft", [N * A])])
 
 
+def _is_step_value(val, depth=0):
+    """the value is a propagation step: a product with an ifft factor, or a merge of alternatives one of which is (a step that
+    is bypassed on some path is still a propagation statement - and then not the symmetric split step on that path)"""
+    if not isinstance(val, Form) or depth > 3:
+        return False
+    if any(x[0] == "fn" and x[1] == "ifft" for x in val.atoms(deep=False)):
+        return True
+    a = val.single_atom()
+    if a is not None and a[0] == "phi":
+        return any(_is_step_value(x, depth + 1) for x in a[2])
+    return False
+
+
 def find_sites(fi, it):
     """[(stmt, field var, value, env)] for every propagation statement at depth 0"""
     out = []
     for f, stmt, name, val, conds, depth in it.assign_log:
         if depth != 0 or not isinstance(val, Form) or not isinstance(stmt, ast.Assign):
             continue
-        a = val.atoms(deep=False)
-        if any(x[0] == "fn" and x[1] == "ifft" for x in a) or (val.single_atom() and val.single_atom()[1] == "ifft"):
+        if _is_step_value(val):
             env = it.snapshots.get(stmt)
             if env is not None and name in env:
                 out.append((stmt, name, val, env))
